@@ -3,6 +3,7 @@ package main
 import (
 	"fmt"
 	"go/token"
+	"go/types"
 	"strings"
 
 	"golang.org/x/tools/go/ssa"
@@ -312,6 +313,63 @@ func runC06(c *Ctx) {
 				to, jb, call = ci.Call.Args[0], ci.Call.Args[1], ci
 			}
 		})
+		if call != nil {
+			return
+		}
+		// the constructor written out: ChainWalker{chain: X, jumpBack: Y} (p left at 0) as the receiver of ExecNext
+		eachInstr(f, func(in ssa.Instruction) {
+			ci, ok := in.(*ssa.Call)
+			if !ok || !strings.HasSuffix(callName(ci), "ChainWalker).ExecNext") || len(ci.Call.Args) == 0 {
+				return
+			}
+			recv := ci.Call.Args[0]
+			if ld, isLd := recv.(*ssa.UnOp); isLd && ld.Op == token.MUL {
+				recv = ld.X
+			}
+			al, isAl := recv.(*ssa.Alloc)
+			if !isAl || !strings.HasSuffix(typeKey(al.Type()), "ChainWalker") {
+				return
+			}
+			var chainV, jbV ssa.Value
+			clean := true
+			for _, r := range referrers(al) {
+				fa, isFA := r.(*ssa.FieldAddr)
+				if !isFA {
+					continue
+				}
+				k, _ := fieldKey(fa)
+				for _, r2 := range referrers(fa) {
+					st, isSt := r2.(*ssa.Store)
+					if !isSt || st.Addr != ssa.Value(fa) {
+						continue
+					}
+					switch {
+					case strings.HasSuffix(k, "ChainWalker.chain"):
+						chainV = st.Val
+					case strings.HasSuffix(k, "ChainWalker.jumpBack"):
+						jbV = st.Val
+					case strings.HasSuffix(k, "ChainWalker.p"):
+						if n, isC := constInt(st.Val); !isC || n != 0 {
+							clean = false
+						}
+					}
+				}
+			}
+			if chainV == nil || !clean {
+				return
+			}
+			if jbV == nil {
+				// no store: the zero value
+				if st, isStruct := al.Type().Underlying().(*types.Pointer).Elem().Underlying().(*types.Struct); isStruct {
+					for i := 0; i < st.NumFields(); i++ {
+						if st.Field(i).Name() == "jumpBack" {
+							jbV = ssa.NewConst(nil, st.Field(i).Type())
+						}
+					}
+				}
+			}
+			to, jb, call = chainV, jbV, ci
+		})
 		return
 	}
 	if f := c.fn(relSeq, "ActionGoto", "Exec"); f != nil {
@@ -522,6 +580,17 @@ func runC06(c *Ctx) {
 				matchCall = ci
 			}
 		})
+		// second form: the matcher loop was extracted into a new helper `matched, err := n.matchAll(ctx, qCtx)`
+		var helperCall *ssa.Call // the call of the helper in ExecNext
+		if matchCall == nil {
+			eachInstrDeep(en, func(g *ssa.Function, in ssa.Instruction) {
+				if ci, kind := isEngineCall(in); ci != nil && kind == "Match" && g != en && g.Parent() == nil {
+					if hc, ok := soleCallSite(g).(*ssa.Call); ok && hc.Parent() == en {
+						matchCall, helperCall = ci, hc
+					}
+				}
+			})
+		}
 		if matchCall == nil {
 			c.anchorMissing("invoke of Matcher.Match in ExecNext")
 		} else {
@@ -546,7 +615,76 @@ func runC06(c *Ctx) {
 					}
 				}
 			}
-			if iff == nil {
+			if iff != nil && helperCall != nil {
+				// in the helper: a false matcher returns false at once; true is returned only after the range is over
+				h := matchCall.Parent()
+				_, truthOfOk := guard{Cond: iff.Cond, Truth: true}.asBool()
+				falseBlk, trueBlk := succOnTruth(iff, !truthOfOk), succOnTruth(iff, truthOfOk)
+				mayBeTrue := func(x ssa.Instruction) bool {
+					r, ok := x.(*ssa.Return)
+					if !ok {
+						return false
+					}
+					rv := returnedValues(r)
+					if len(rv) != 2 {
+						return true
+					}
+					for _, lf := range expandCases(rv[0], nil, 0) {
+						if b, ok := constBool(lf.val); !ok || b {
+							return true
+						}
+					}
+					return false
+				}
+				isEng := func(x ssa.Instruction) bool { ci, _ := isEngineCall(x); return ci != nil }
+				_, leak1 := reachFromBlock(falseBlk, func(x ssa.Instruction) bool { return isEng(x) || mayBeTrue(x) }, nil)
+				hdr := innermostLoopHeader(matchCall.Block())
+				_, leak2 := reachFromBlock(trueBlk, mayBeTrue, func(x ssa.Instruction) bool { return hdr != nil && x.Block() == hdr })
+				// in ExecNext: the helper runs on the current node and a false result skips to the next rule
+				cur := false
+				if len(helperCall.Call.Args) > 0 {
+					if ld, ok := helperCall.Call.Args[0].(*ssa.UnOp); ok {
+						if ia, ok := ld.X.(*ssa.IndexAddr); ok && pPhi != nil && ia.Index == pPhi {
+							if k, _ := loadedField(ia.X); k == S+"ChainWalker.chain" {
+								cur = true
+							}
+						}
+					}
+				}
+				var hIf *ssa.If
+				for _, r := range referrers(helperCall) {
+					if ex, ok := r.(*ssa.Extract); ok && ex.Index == 0 {
+						for _, r2 := range referrers(ex) {
+							if i, ok := r2.(*ssa.If); ok {
+								hIf = i
+							}
+							if u, ok := r2.(*ssa.UnOp); ok && u.Op == token.NOT {
+								for _, r3 := range referrers(u) {
+									if i, ok := r3.(*ssa.If); ok {
+										hIf = i
+									}
+								}
+							}
+						}
+					}
+				}
+				leak3 := true
+				if hIf != nil {
+					_, t := guard{Cond: hIf.Cond, Truth: true}.asBool()
+					isInc := func(x ssa.Instruction) bool {
+						bo, ok := x.(*ssa.BinOp)
+						if !ok || bo.Op != token.ADD || pPhi == nil || bo.X != pPhi {
+							return false
+						}
+						n, ok := constInt(bo.Y)
+						return ok && n == 1
+					}
+					_, leak3 = reachFromBlock(succOnTruth(hIf, !t), isEng, isInc)
+				}
+				c.check(!leak1 && !leak2 && !leak3 && cur && h.Signature.Results().Len() == 2, "short-circuit@ExecNext", instrPos(helperCall),
+					"the matcher helper returns false at the first false matcher and true only after the last one; ExecNext skips the rule on false",
+					"after a matcher returned false, a further matcher or the action of the same rule can still run (matcher loop in "+funcName(h)+")")
+			} else if iff == nil {
 				c.fail("short-circuit@ExecNext", instrPos(matchCall), "the matcher's result is not branched on")
 			} else {
 				_, truthOfOk := guard{Cond: iff.Cond, Truth: true}.asBool()
@@ -559,7 +697,7 @@ func runC06(c *Ctx) {
 					n, ok := constInt(bo.Y)
 					return ok && n == 1
 				}
-				_, leak := reachFromBlock(falseBlk, func(x ssa.Instruction) bool { ci, _ := isEngineCall(x); return ci != nil }, isInc)
+				_, leak := reachPhiAware(falseBlk, iff.Block(), func(x ssa.Instruction) bool { ci, _ := isEngineCall(x); return ci != nil }, isInc)
 				c.check(!leak, "short-circuit@ExecNext", instrPos(iff), "after a false matcher nothing of this rule runs before the index advances",
 					"after a matcher returned false, a further matcher or the action of the same rule can still run")
 				// and the action is only reachable through ok == true of every evaluated matcher
@@ -674,6 +812,9 @@ func runC06(c *Ctx) {
 					}
 				case *ssa.Extract:
 					cl, ok := x.Tuple.(*ssa.Call)
+					if ok && !cl.Call.IsInvoke() && helperErrIsMatchers(cl, x.Index) {
+						continue
+					}
 					if !ok || !cl.Call.IsInvoke() || cl.Call.Method.Name() != "Match" {
 						okAll, why = false, exprStr(v)
 					}
@@ -725,4 +866,37 @@ func runC06(c *Ctx) {
 		}
 		c.check(good, "end-of-chain@ExecNext", en.Pos(), "falls through to jumpBack.ExecNext when non-nil, else returns nil", "the end of a chain does not resume the pending jump-back (or does not return nil at top level)")
 	}
+}
+
+// helperErrIsMatchers: cl calls a new helper of ExecNext (only call site) whose idx-th result is, at every return, nil or
+// the error of a Matcher.Match invoke.
+func helperErrIsMatchers(cl *ssa.Call, idx int) bool {
+	h := cl.Call.StaticCallee()
+	if h == nil || !isNewHelper(h) || soleCallSite(h) != ssa.Instruction(cl) {
+		return false
+	}
+	n := 0
+	for _, r := range returnsOf(h) {
+		rv := returnedValues(r)
+		if idx >= len(rv) {
+			return false
+		}
+		for _, lf := range expandCases(rv[idx], nil, 0) {
+			n++
+			switch x := lf.val.(type) {
+			case *ssa.Const:
+				if !isNilConst(x) {
+					return false
+				}
+			case *ssa.Extract:
+				c2, ok := x.Tuple.(*ssa.Call)
+				if !ok || !c2.Call.IsInvoke() || c2.Call.Method.Name() != "Match" {
+					return false
+				}
+			default:
+				return false
+			}
+		}
+	}
+	return n > 0
 }
